@@ -228,13 +228,16 @@ def check_assembly(ctx, rep):
     # B2: clock: rate × time, element-wise, same node order
     ok = False
     facts = {}
-    prods = [st for b in clock for st in ast.walk(b) if isinstance(st, ast.Assign) and isinstance(st.value, ast.BinOp) and isinstance(st.value.op, ast.Mult)]
+    target = cats[0].targets[0].id if len(cats) == 1 and isinstance(cats[0].targets[0], ast.Name) else 'bls'
+    prods = [st for b in clock for st in ast.walk(b) if isinstance(st, ast.Assign) and any(isinstance(t, ast.Name) and t.id == target for t in st.targets)]
     if prods:
         ok = True
         for st in prods:
-            l, r_ = _strip_shape_calls(st.value.left), _strip_shape_calls(st.value.right)
-            sides = {q(l), q(r_)}
-            good = 'self.clock_model.rates' in sides and any(isinstance(x, ast.Name) and x.id in bl_names for x in (l, r_))
+            good = False
+            if isinstance(st.value, ast.BinOp) and isinstance(st.value.op, ast.Mult):
+                l, r_ = _strip_shape_calls(st.value.left), _strip_shape_calls(st.value.right)
+                sides = {q(l), q(r_)}
+                good = 'self.clock_model.rates' in sides and any(isinstance(x, ast.Name) and x.id in bl_names for x in (l, r_))
             ok = ok and good
             facts[q(st)[:80]] = good
     rep.check('C01.B', 'TreeLikelihoodModel._call::clock::rate-times-time-per-branch', ok, W, facts,
